@@ -33,7 +33,7 @@ thread_local! {
 /// 64 reads of fewer than 128 bytes on average as an attack, so the network of such a run does not
 /// fragment below 64 bytes per read.
 pub fn maybe_ws_transport(seed: u64, case: &mut Value) {
-    if !case["node_knobs"].is_object() || case["mode"].is_string() {
+    if !case["node_knobs"].is_object() || (case["mode"].is_string() && case["mode"] != "builtin") {
         return;
     }
     let mut r = Rng::fork(seed, "ws-transport");
